@@ -258,8 +258,399 @@ func (t *c12Tree) indexedPaths(o c12Obj) (paths []string, seg []int, lens []int)
 	return
 }
 
-// directedOnce applies one directed boundary mutation; "" when the tree offers no site.
+// directedOnce applies one directed mutation of one of three families; "" when the tree offers no site.
 func (gen *c12Gen) directedOnce(g *Rng, t *c12Tree) string {
+	switch k := g.Intn(100); {
+	case k < 50:
+		return gen.directedBoundary(g, t)
+	case k < 75:
+		if d := gen.directedDeleteKey(g, t); d != "" {
+			return d
+		}
+		return gen.directedBoundary(g, t)
+	default:
+		if d := gen.directedTwoDefects(g, t); d != "" {
+			return d
+		}
+		return gen.directedBoundary(g, t)
+	}
+}
+
+// ---------- family 2: delete exactly ONE key of a small identity-bearing mapping ----------
+//
+// Later code dereferences the fields of these mappings after having checked only some of them
+// (roleRef.apiGroup/kind/name, subjects[i].kind/name/namespace, metadata.name/namespace, selector
+// and target fields, objref / fieldref of vars, container name/image, key references ...). Everything
+// else in the tree stays valid.
+
+// identity mappings: last path segment (list elements: the segment before the index) -> keys worth deleting
+var c12IdentityMaps = map[string][]string{
+	"roleRef":         {"apiGroup", "kind", "name"},
+	"subjects":        {"kind", "name", "namespace", "apiGroup"},
+	"metadata":        {"name", "namespace"},
+	"target":          {"kind", "name", "group", "version", "namespace"},
+	"select":          {"kind", "name", "namespace"},
+	"reject":          {"kind", "name"},
+	"source":          {"kind", "name", "fieldPath", "namespace"},
+	"targets":         {"select", "fieldPaths"},
+	"fieldref":        {"fieldpath"},
+	"objref":          {"kind", "name", "apiVersion"},
+	"vars":            {"name", "objref", "fieldref"},
+	"containers":      {"name", "image"},
+	"initContainers":  {"name", "image"},
+	"configMapKeyRef": {"name", "key"},
+	"secretKeyRef":    {"name", "key"},
+	"configMapRef":    {"name"},
+	"configMap":       {"name"},
+	"secret":          {"secretName"},
+	"scaleTargetRef":  {"apiVersion", "kind", "name"},
+	"service":         {"name", "port"},
+	"ports":           {"port", "name", "containerPort", "protocol"},
+	"images":          {"name", "newName", "newTag", "digest"},
+	"replicas":        {"name", "count"},
+	"configMapGenerator": {"name", "literals", "behavior"},
+	"secretGenerator": {"name", "literals"},
+	"replacements":    {"source", "targets", "path"},
+	"patches":         {"patch", "path", "target"},
+	"patchesJson6902": {"target", "patch", "path"},
+	"options":         {"delimiter", "index", "create"},
+	"labels":          {"pairs"},
+	"env":             {"name", "value", "valueFrom"},
+	"volumes":         {"name"},
+	"volumeMounts":    {"name", "mountPath"},
+	"rules":           {"apiGroups", "resources", "verbs"},
+	"fieldSpecs":      {"path", "kind"},
+	"template":        {"metadata", "spec"},
+	"selector":        {"matchLabels"},
+	"spec":            {"selector", "template", "containers", "rules", "ports"},
+}
+
+func identityKeys(path string) []string {
+	segs := strings.Split(strings.Trim(path, "/"), "/")
+	if len(segs) == 0 {
+		return nil
+	}
+	last := segs[len(segs)-1]
+	if _, err := strconv.Atoi(last); err == nil && len(segs) >= 2 {
+		last = segs[len(segs)-2]
+	}
+	if path == "" {
+		return []string{"apiVersion", "kind", "metadata"} // a document root
+	}
+	return c12IdentityMaps[last]
+}
+
+func (gen *c12Gen) directedDeleteKey(g *Rng, t *c12Tree) string {
+	type cand struct {
+		f   *c12File
+		ref nodeRef
+		key int // index of the key node in Content
+	}
+	var cands []cand
+	var hot []cand  // the mappings named in the brief get extra weight
+	var rbac []cand // reference-carrying mappings of RBAC objects and vars: few per tree, dereferenced by the name-reference fixer on every build
+	for _, f := range t.files {
+		if f.docs == nil {
+			continue
+		}
+		for _, r := range collectRefs(f) {
+			if r.node.Kind != yaml.MappingNode {
+				continue
+			}
+			keys := identityKeys(r.path)
+			if keys == nil {
+				continue
+			}
+			for i := 0; i+1 < len(r.node.Content); i += 2 {
+				for _, k := range keys {
+					if r.node.Content[i].Value == k {
+						c := cand{f, r, i}
+						cands = append(cands, c)
+						if strings.HasSuffix(r.path, "/roleRef") || strings.Contains(r.path, "/subjects/") || strings.HasSuffix(r.path, "/objref") || strings.HasSuffix(r.path, "/fieldref") ||
+							strings.HasSuffix(r.path, "/scaleTargetRef") || strings.HasSuffix(r.path, "KeyRef") {
+							rbac = append(rbac, c)
+						}
+						if strings.Contains(r.path, "roleRef") || strings.Contains(r.path, "subjects") || strings.HasSuffix(r.path, "/metadata") ||
+							strings.Contains(r.path, "objref") || strings.Contains(r.path, "fieldref") || strings.HasSuffix(r.path, "/target") || strings.Contains(r.path, "containers/") {
+							hot = append(hot, c)
+						}
+					}
+				}
+			}
+		}
+	}
+	if len(cands) == 0 {
+		return ""
+	}
+	c := cands[g.Intn(len(cands))]
+	if len(hot) > 0 && g.Chance(50) {
+		c = hot[g.Intn(len(hot))]
+	}
+	if len(rbac) > 0 && g.Chance(40) {
+		c = rbac[g.Intn(len(rbac))]
+	}
+	key := c.ref.node.Content[c.key].Value
+	c.ref.node.Content = append(c.ref.node.Content[:c.key:c.key], c.ref.node.Content[c.key+2:]...)
+	return fmt.Sprintf("directed:deletekey %s of %s @%s:%d%s", key, lastSeg(c.ref.path), c.f.path, c.ref.doc, c.ref.path)
+}
+
+func lastSeg(path string) string {
+	segs := strings.Split(strings.Trim(path, "/"), "/")
+	last := segs[len(segs)-1]
+	if _, err := strconv.Atoi(last); err == nil && len(segs) >= 2 {
+		return segs[len(segs)-2] + "[]"
+	}
+	if last == "" {
+		return "document"
+	}
+	return last
+}
+
+// ---------- family 3: two independent defects ----------
+//
+// An object that PARSES as a node tree but cannot be marshalled (duplicate mapping key, non-string
+// key; at top level or nested) combined with a trigger of an error path. Error paths that format a
+// resource (MustYaml / MustString / String / AsYAML in a message) are where exits and panics hide.
+
+func (t *c12Tree) findObjLoc(o c12Obj) (*c12File, int, *yaml.Node) {
+	d := t.findObjDoc(o)
+	if d == nil {
+		return nil, -1, nil
+	}
+	for _, f := range t.files {
+		for i, x := range f.docs {
+			if x == d {
+				return f, i, d
+			}
+			if items := mapGet(x, "items"); items != nil {
+				for _, it := range items.Content {
+					if it == d {
+						return f, -1, d
+					}
+				}
+			}
+		}
+	}
+	return nil, -1, d
+}
+
+// breakMarshal makes the document unmarshalable while it still parses.
+func breakMarshal(g *Rng, doc *yaml.Node) string {
+	type m struct {
+		n    *yaml.Node
+		path string
+	}
+	var maps []m
+	var rec func(n *yaml.Node, path string, depth int)
+	rec = func(n *yaml.Node, path string, depth int) {
+		if n.Kind == yaml.MappingNode {
+			maps = append(maps, m{n, path})
+			for i := 0; i+1 < len(n.Content); i += 2 {
+				rec(n.Content[i+1], path+"/"+n.Content[i].Value, depth+1)
+			}
+		} else if n.Kind == yaml.SequenceNode {
+			for i, c := range n.Content {
+				rec(c, fmt.Sprintf("%s/%d", path, i), depth+1)
+			}
+		}
+	}
+	rec(doc, "", 0)
+	if len(maps) == 0 {
+		return ""
+	}
+	pick := maps[g.Intn(len(maps))]
+	// top level, metadata, labels, annotations, data are the usual suspects
+	if g.Chance(65) {
+		var pref []m
+		for _, x := range maps {
+			switch x.path {
+			case "", "/metadata", "/metadata/labels", "/metadata/annotations", "/data", "/spec", "/spec/selector/matchLabels", "/spec/template/metadata/labels":
+				pref = append(pref, x)
+			}
+		}
+		if len(pref) > 0 {
+			pick = pref[g.Intn(len(pref))]
+		}
+	}
+	n := pick.n
+	if len(n.Content) >= 2 && g.Chance(60) {
+		i := 2 * g.Intn(len(n.Content)/2)
+		v := copyNode(n.Content[i+1])
+		if g.Chance(30) {
+			v = ys("other")
+		}
+		n.Content = append(n.Content, copyNode(n.Content[i]), v)
+		return fmt.Sprintf("dupkey %s at %q", n.Content[i].Value, pick.path)
+	}
+	k := []*yaml.Node{yraw("!!int", "1"), yraw("!!bool", "true"), ynull(), yraw("!!float", "1.5"), yraw("!!int", "0")}[g.Intn(5)]
+	n.Content = append(n.Content, k, ys("one"))
+	return fmt.Sprintf("nonstringkey %s at %q", k.Value, pick.path)
+}
+
+// kustomization file in the same directory as f
+func (t *c12Tree) kustOfDir(f *c12File) *c12File {
+	dir := f.path[:strings.LastIndex(f.path, "/")]
+	for _, k := range t.files {
+		if k.path == dir+"/kustomization.yaml" && len(k.docs) == 1 && k.docs[0].Kind == yaml.MappingNode {
+			return k
+		}
+	}
+	return nil
+}
+
+func (gen *c12Gen) directedTwoDefects(g *Rng, t *c12Tree) string {
+	if len(t.objs) == 0 {
+		return ""
+	}
+	for tries := 0; tries < 8; tries++ {
+		o := t.objs[g.Intn(len(t.objs))]
+		f, idx, doc := t.findObjLoc(o)
+		if f == nil || doc == nil {
+			continue
+		}
+		kf := t.kustOfDir(f)
+		if kf == nil {
+			continue
+		}
+		k := kf.docs[0]
+		base := f.path[strings.LastIndex(f.path, "/")+1:]
+		victim := doc // the object that gets the marshalling defect
+		var trig string
+		switch g.Intn(9) {
+		case 0: // duplicate id: the same file listed twice
+			if res := mapGet(k, "resources"); res != nil && res.Kind == yaml.SequenceNode {
+				res.Content = append(res.Content, ys(base))
+				trig = "same-file-twice " + base
+			}
+		case 1: // duplicate id: the document twice in its file
+			if idx >= 0 {
+				f.docs = append(f.docs, copyNode(doc))
+				if g.Chance(50) {
+					victim = f.docs[len(f.docs)-1]
+				}
+				trig = "document-twice"
+			}
+		case 2: // duplicate id across files of the layer
+			if idx >= 0 {
+				nf := &c12File{path: f.path[:strings.LastIndex(f.path, "/")] + "/dup.yaml", docs: []*yaml.Node{copyNode(doc)}, role: "resources"}
+				t.files = append(t.files, nf)
+				if res := mapGet(k, "resources"); res != nil && res.Kind == yaml.SequenceNode {
+					res.Content = append(res.Content, ys("dup.yaml"))
+				}
+				trig = "same-object-in-two-files"
+			}
+		case 3: // ambiguous name referral: every ConfigMap (or Secret / ServiceAccount) gets one name
+			ref, ok := pickObj(g, t.objs, "ConfigMap", "Secret", "ServiceAccount")
+			if !ok {
+				continue
+			}
+			// make sure there are two of the kind
+			if idx >= 0 {
+				if _, i2, d2 := t.findObjLoc(ref); i2 >= 0 && d2 != nil {
+					c := copyNode(d2)
+					if md := mapGet(c, "metadata"); md != nil {
+						mapSet(md, "name", ys(ref.name+"-twin"))
+					}
+					f.docs = append(f.docs, c)
+				}
+			}
+			listAppend(k, "patches", ym("patch", inlineYAML(yl(ym("op", ys("replace"), "path", ys("/metadata/name"), "value", ys(ref.name)))), "target", ym("kind", ys(ref.kind))))
+			// the victim is a referrer when there is one
+			if w, ok := pickObj(g, t.objs, "Deployment", "StatefulSet", "DaemonSet", "Pod", "Job", "CronJob", "RoleBinding", "ClusterRoleBinding"); ok && g.Chance(70) {
+				if d := t.findObjDoc(w); d != nil {
+					victim = d
+				}
+			}
+			trig = "ambiguous-referral " + ref.kind + "/" + ref.name
+		case 4: // id collision after the namespace transformer
+			if idx >= 0 {
+				c := copyNode(doc)
+				if md := mapGet(c, "metadata"); md != nil && md.Kind == yaml.MappingNode {
+					mapSet(md, "namespace", ys("elsewhere"))
+				}
+				f.docs = append(f.docs, c)
+				mapSet(k, "namespace", ys(g.Pick(c12NsPool)))
+				trig = "id-collision-after-namespace"
+			}
+		case 5: // id collision after prefix / rename
+			if idx >= 0 {
+				c := copyNode(doc)
+				if md := mapGet(c, "metadata"); md != nil && md.Kind == yaml.MappingNode {
+					mapSet(md, "name", ys(o.name+"-b"))
+				}
+				f.docs = append(f.docs, c)
+				listAppend(k, "patches", ym("patch", inlineYAML(yl(ym("op", ys("replace"), "path", ys("/metadata/name"), "value", ys(o.name)))), "target", ym("kind", ys(o.kind), "name", ys(o.name+"-b"))))
+				trig = "id-collision-after-rename"
+			}
+		case 6: // patch target not found / patch that cannot be marshalled
+			p := simpleSMP(o)
+			if g.Chance(50) {
+				mapSet(mapGet(p, "metadata"), "name", ys(o.name+"-missing"))
+			}
+			if g.Chance(50) {
+				victim = p
+			}
+			nf := &c12File{path: kf.path[:strings.LastIndex(kf.path, "/")] + "/dpatch.yaml", docs: []*yaml.Node{p}, role: "patch"}
+			t.files = append(t.files, nf)
+			listAppend(k, g.Pick([]string{"patchesStrategicMerge", "patches"}), func() *yaml.Node {
+				return ys("dpatch.yaml")
+			}())
+			if l := mapGet(k, "patches"); l != nil {
+				last := l.Content[len(l.Content)-1]
+				if last.Kind == yaml.ScalarNode && last.Value == "dpatch.yaml" {
+					l.Content[len(l.Content)-1] = ym("path", ys("dpatch.yaml"))
+				}
+			}
+			trig = "patch-target-missing-or-broken"
+		case 7: // conflicting generator behaviours on an existing ConfigMap / Secret
+			ref, ok := pickObj(g, t.objs, "ConfigMap", "Secret")
+			if !ok {
+				continue
+			}
+			if d := t.findObjDoc(ref); d != nil {
+				victim = d
+			}
+			key := "configMapGenerator"
+			if ref.kind == "Secret" {
+				key = "secretGenerator"
+			}
+			e := ym("name", ys(ref.name), "literals", ystrs("k=v"), "behavior", ys(g.Pick([]string{"create", "merge", "replace", "merge"})))
+			if ref.ns != "" && g.Chance(70) {
+				mapSet(e, "namespace", ys(ref.ns))
+			}
+			listAppend(k, key, e)
+			trig = "generator-behaviour " + mapGet(e, "behavior").Value
+		default: // replacement whose source or target is the broken object; selection by kind only (several matches)
+			listAppend(k, "replacements", ym("source", ym("kind", ys(o.kind), "fieldPath", ys("metadata.name")),
+				"targets", yl(ym("select", ym("kind", ys(o.kind)), "fieldPaths", ystrs("metadata.annotations.directed"), "options", ym("create", yb(true))))))
+			if idx >= 0 && g.Chance(60) {
+				c := copyNode(doc)
+				if md := mapGet(c, "metadata"); md != nil && md.Kind == yaml.MappingNode {
+					mapSet(md, "name", ys(o.name+"-b"))
+				}
+				f.docs = append(f.docs, c)
+			}
+			trig = "replacement-multiple-sources"
+		}
+		if trig == "" {
+			continue
+		}
+		if g.Chance(25) { // an unrelated object instead
+			if d := t.findObjDoc(t.objs[g.Intn(len(t.objs))]); d != nil {
+				victim = d
+			}
+		}
+		br := breakMarshal(g, victim)
+		if br == "" {
+			continue
+		}
+		return fmt.Sprintf("directed:twodefects %s + %s @%s:", strings.Fields(trig)[0], br, kf.path)
+	}
+	return ""
+}
+
+// directedBoundary applies one directed boundary mutation; "" when the tree offers no site.
+func (gen *c12Gen) directedBoundary(g *Rng, t *c12Tree) string {
 	if len(t.objs) == 0 {
 		return ""
 	}
